@@ -70,8 +70,8 @@ class Cli(Engine):
     name = "cli"
     SECT = {
         "C09": ["EXIT", "NAMED"],
-        "C19": ["EXIT", "WR"],
-        "C20": ["EXIT", "OUT", "JS", "OM", "TR", "VR", "EM"],
+        "C19": ["WR"],
+        "C20": ["OUT", "JS", "OM", "TR", "VR", "EM"],
     }
 
     def compare_sections(self, prop):
